@@ -23,6 +23,26 @@ CLAIMED = {
             "DESIGN.md C13"),
 }
 
+CLAIMED["C06"] = (
+    "Rocq/Coq bound theorems for the two fixed-size tables the property names (parser scope stack, tail-remark "
+    "buffer) with constants and guards regenerated from the sources; ASan+UBSan campaign of the four tools on valid, "
+    "token-mutated, byte-mutated, pathological and shipped inputs",
+    "tools/translate.py regenerates coq/gen/ExpBuffers.v from expparse.y, generated/expparse.c (which must agree) and "
+    "lexact.c: MAX_SCOPE_DEPTH, whether PUSH_SCOPE / PUSH_SCOPE_DUMMY are preceded by the depth guard and its margin, "
+    "the remark buffer size and how the two copies into it are bounded. coq/Properties_C06.v proves (axiom-free): for "
+    "every sequence of scope openings and closings, of any length and nesting, the stack pointer stays below "
+    "MAX_SCOPE_DEPTH (the guard stops the tool first); both remark copies stay inside the buffer for a remark of any "
+    "length. With the guard or the bounded copy removed the regenerated constants make the proofs fail. Memory safety "
+    "of the rest of the C code is not something a Gallina model can carry: the check runs check-express, exppp, "
+    "exp2cxx and exp2python built with AddressSanitizer and UndefinedBehaviorSanitizer on generated valid schemas, "
+    "token-level and byte-level mutants, pathological shapes at the boundaries the model names (nesting 17..21 and "
+    "100; remarks of 254..257 and 10^4 characters; literals of 10^5 characters; 1000 parentheses; NULs; non-ASCII; "
+    "missing final newline; unterminated strings and remarks) and shipped schemas with mutants, and requires: no "
+    "sanitizer report, no signal, termination within the limit, status 0 or small positive with a diagnostic, valid "
+    "schemas accepted; the depth at which the tools stop is compared with the model.",
+    "Partial: proofs cover two tables; everything else is sanitizer testing. Termination is a time limit. Open "
+    "finding: identifiers longer than the BUFSIZ name buffers.",
+    "DESIGN.md C06")
 CLAIMED["C08"] = (
     "Rocq/Coq theorems that acceptance is a function of the set of part names (order and repetition irrelevant) for "
     "every schema graph, with a refutation witness for 'supported iff legal'; exhaustive correspondence: every subset "
